@@ -56,6 +56,9 @@ func (o Option) deepCopy() Option {
 		handler:     nHandler,
 		paths:       nPaths,
 		maxRunSteps: o.maxRunSteps,
+		// handed down with the trimmed path so that the nested graph can refuse a designation to one of
+		// its non-graph nodes (the modifier itself is applied through the context, by full path)
+		stateModifier: o.stateModifier,
 	}
 }
 
